@@ -1,6 +1,7 @@
 #!/usr/bin/env bash
 # False-alarm test: applies each property-PRESERVING change in /verif/benign/<id>/patch.diff to /repo,
-# runs every quick check, undoes it. Every check must exit 0. Results: benign/results.tsv
+# runs every quick check, undoes it. Every check must exit 0, except the checks of ANOTHER property listed for
+# that change in benign/expected_alarms.tsv (the change violates that other property). Results: benign/results.tsv
 set -u
 HERE="$(cd "$(dirname "${BASH_SOURCE[0]}")/.." && pwd)"
 ids="${@:-$(ls -d $HERE/benign/C*-* | xargs -n1 basename)}"
@@ -16,5 +17,14 @@ for id in $ids; do
     if [ $rc -ne 0 ]; then alarms="$alarms $p(rc=$rc:$(grep -m1 -o 'invariant=[^ ]* signature=[^ ]*' "$d/check.$p.txt"))"; else rm -f "$d/check.$p.txt"; fi
   done
   git -C /repo checkout -- .
-  echo -e "$id\t${alarms:-all 12 checks exit 0}" | tee -a "$HERE/benign/results.tsv"
+  exp=$(grep -P "^$id\t" "$HERE/benign/expected_alarms.tsv" | cut -f2)
+  verdict=""
+  if [ -n "$alarms" ]; then
+    verdict="UNEXPECTED"
+    if [ -n "$exp" ]; then
+      verdict="expected ($exp may alarm)"
+      for a in $alarms; do pa="${a%%(*}"; case ",$exp," in *",$pa,"*) ;; *) verdict="UNEXPECTED";; esac; done
+    fi
+  fi
+  echo -e "$id\t${alarms:-all 12 checks exit 0}\t$verdict" | tee -a "$HERE/benign/results.tsv"
 done
